@@ -25,19 +25,20 @@ VERIF = os.path.dirname(os.path.dirname(os.path.abspath(__file__)))
 WORK = "/tmp/tzrs-mutate"
 COPY = os.path.join(WORK, "repo")
 ENV = dict(os.environ, CARGO_NET_OFFLINE="true", CARGO_TERM_COLOR="never")
+OPSET = "v1"
 CHECK_ENV = dict(ENV, VERIF_REPO=COPY, VERIF_TARGET_DIR=os.path.join(WORK, "target"), VERIF_EVIDENCE_DIR=os.path.join(WORK, "evidence"), VERIF_REPLAY_DIR=os.path.join(WORK, "replay"))
 
 # file -> checks to try, cheapest / most relevant first
 CHECKS = {
-    "src/datetime/mod.rs": ["C01", "C02", "C18", "C14", "C16", "C05"],
-    "src/datetime/find.rs": ["C05", "C06", "C17", "C14", "C12"],
-    "src/timezone/mod.rs": ["C03", "C13", "C12", "C20", "C05", "C08"],
-    "src/timezone/rule.rs": ["C04", "C11", "C05", "C06", "C09"],
-    "src/parse/tz_file.rs": ["C08", "C07", "C10"],
+    "src/datetime/mod.rs": ["C01", "C02", "C18", "C14", "C16", "C05", "C07"],
+    "src/datetime/find.rs": ["C05", "C06", "C17", "C14", "C12", "C07"],
+    "src/timezone/mod.rs": ["C03", "C13", "C12", "C20", "C05", "C08", "C15", "C07"],
+    "src/timezone/rule.rs": ["C04", "C11", "C05", "C06", "C09", "C07"],
+    "src/parse/tz_file.rs": ["C08", "C07", "C10", "C09"],
     "src/parse/tz_string.rs": ["C09", "C08", "C20"],
     "src/parse/utils.rs": ["C09", "C08"],
     "src/utils/const_fns.rs": ["C03", "C12", "C01", "C16", "C04"],
-    "src/constants/mod.rs": ["C01", "C02", "C04", "C11"],
+    "src/constants/mod.rs": ["C01", "C02", "C04", "C11", "C13", "C03"],
 }
 
 OPS = [
@@ -49,6 +50,16 @@ OPS = [
     (r"\bunix_time_before\b", ["unix_time_after"]), (r"\bunix_leap_time_before\b", ["unix_time_before"]),
     (r"\bcurrent_year - 1\b", ["current_year"]), (r"\bcurrent_year \+ 1\b", ["current_year"]),
 ]
+# second operator set (--ops v2): forced conditions, saturating/checked -> wrapping, min <-> max, dropped unary minus,
+# dropped `?`-less early returns are covered by forcing their condition
+OPS_V2 = [
+    (r"\bsaturating_(add|sub|mul)\b", None), (r"\bmin\(", ["max("]), (r"\bmax\(", ["min("]),
+    (r"(?<=[(,=] )-(?=[a-z_(])", [""]), (r"\.abs\(\)", [""]), (r"\.unsigned_abs\(\)", [" as u32"]),
+    (r"\bi64::MAX\b", ["i64::MIN"]), (r"\bi64::MIN\b", ["i64::MAX"]), (r"\bi32::MAX\b", ["i32::MIN"]), (r"\bi32::MIN\b", ["i32::MAX"]),
+    (r"\bDAYS_PER_WEEK\b", ["6"]), (r"\bSECONDS_PER_DAY\b", ["SECONDS_PER_HOUR"]), (r"\bas i64\b", ["as i32 as i64"]), (r"\bas usize\b", ["as u8 as usize"]),
+]
+IF_LINE = re.compile(r"^(\s*)(\} else )?if (?!let\b)(.+) \{\s*$")
+
 INT = re.compile(r"(?<![\w.])(\d+)(?![\w.])")
 
 
@@ -92,7 +103,29 @@ def code_lines(path):
     return lines, out
 
 
+def mutants_v2(path):
+    lines, code = code_lines(path)
+    res = []
+    for i, l in code:
+        body = l.split("//")[0]
+        m = IF_LINE.match(body)
+        if m:
+            a, b = m.start(3), m.end(3)
+            res.append((i, a, b, "false"))
+            res.append((i, a, b, "true"))
+        for pat, repls in OPS_V2:
+            for mm in re.finditer(pat, body):
+                if repls is None:
+                    res.append((i, mm.start(), mm.end(), "wrapping_" + mm.group(1)))
+                else:
+                    for r in repls:
+                        res.append((i, mm.start(), mm.end(), r))
+    return lines, res
+
+
 def mutants_of(path):
+    if OPSET == "v2":
+        return mutants_v2(path)
     lines, code = code_lines(path)
     res = []
     for i, l in code:
@@ -201,6 +234,8 @@ if __name__ == "__main__":
                 stride = int(a[i + 1])
             elif a[i] == "--start":
                 start = int(a[i + 1])
+            elif a[i] == "--ops":
+                OPSET = a[i + 1]
             i += 2
         run(files, limit, out, stride, start)
     elif len(a) >= 3 and a[1] == "report":
